@@ -8,7 +8,15 @@
  * ppoll would have looked at signals (i.e. when no descriptor is ready).
  *
  * Operations (one line each; `k` names a watch slot chosen by the generator, unique per history):
- *   new                      a fresh process image with one toplevel instance, number 0 (the current one)
+ *   new [Cnn] [fb]           a fresh process image with one toplevel instance, number 0 (the current one).
+ *                            `fb`: the instance gets a copy of tickit_evloop_default whose optional members .signal and
+ *                            .cancel_signal are NULL, so that tickit.c's own signal fallback is used: sigaction handlers
+ *                            that record the signal in t->signal.pending and write a byte to a self-pipe whose read end
+ *                            is an ordinary io watch (on_sigpipe_readable).  pipe() is interposed only to give the
+ *                            descriptors canonical numbers (90+2n / 91+2n for the n-th pipe of the process); the pipe,
+ *                            the handlers and the signals are real, the ppoll wrapper asks the kernel whether the read
+ *                            end is readable.  Signals are not blocked in this configuration.  One instance only
+ *                            (`inst`/`use` of another one: bad-op).  The trailer gains ` q=<bytes in the self-pipe>`.
  *   inst i                   make instance i (0..2) the current one; tickit_build it when it does not exist
  *   use i                    make instance i the current one: every operation below acts on the current instance,
  *                            callbacks act on the instance they are invoked for
@@ -44,6 +52,10 @@
 #include <stdint.h>
 #include <sys/time.h>
 #include <sys/types.h>
+#include <sys/ioctl.h>
+#include "tickit-evloop.h"
+
+extern TickitEventHooks tickit_evloop_default;
 
 extern int __lsan_do_recoverable_leak_check(void);
 
@@ -94,6 +106,14 @@ static int ready_bits[NFD];
 static int inpoll[8], ninpoll;
 static struct { int exited, reaped, status; } PR[NPID];
 
+/* the self-pipe configuration (`new … fb`) */
+#define PIPE0 90
+static int fbmode;
+static TickitEventHooks fbhooks;
+static int canon_pipe;       /* inside tickit_build / a registration: the next pipe() is the library's self-pipe */
+static int npipes;           /* pipes the library has made in this process */
+static int pipe_rd = -1;     /* read end of the most recent one */
+
 /* ------------------------------------------------------------------ interposed libc */
 
 int __wrap_gettimeofday(struct timeval *tv, void *tz)
@@ -112,6 +132,24 @@ int __wrap_gettimeofday(struct timeval *tv, void *tz)
   return 0;
 }
 
+int __real_pipe(int fds[2]);
+int __wrap_pipe(int fds[2])
+{
+  int r = __real_pipe(fds);
+  if(r < 0 || !canon_pipe)
+    return r;
+  /* canonical descriptor numbers, so that the poll slots can be printed */
+  int rd = PIPE0 + 2 * npipes, wr = rd + 1;
+  if(dup2(fds[0], rd) < 0 || dup2(fds[1], wr) < 0) _exit(96);
+  close(fds[0]); close(fds[1]);
+  fds[0] = rd; fds[1] = wr;
+  pipe_rd = rd;
+  npipes++;
+  return r;
+}
+
+static void block_sigs(sigset_t *orig);
+
 int __real_ppoll(struct pollfd *fds, nfds_t nfds, const struct timespec *to, const sigset_t *mask);
 int __wrap_ppoll(struct pollfd *fds, nfds_t nfds, const struct timespec *to, const sigset_t *mask)
 {
@@ -129,22 +167,37 @@ int __wrap_ppoll(struct pollfd *fds, nfds_t nfds, const struct timespec *to, con
     int r = 0;
     if(fds[i].fd >= FD0 && fds[i].fd < FD0 + NFD)
       r = ready_bits[fds[i].fd - FD0] & (fds[i].events | POLLERR | POLLHUP | POLLNVAL);
+    else if(fbmode && pipe_rd >= 0 && fds[i].fd == pipe_rd) {
+      /* the library's self-pipe: ask the kernel */
+      struct pollfd p = { .fd = pipe_rd, .events = fds[i].events };
+      int e_ = errno;
+      if(poll(&p, 1, 0) > 0) r = p.revents;
+      errno = e_;
+    }
     fds[i].revents = r;
     if(r) count++;
   }
   if(!nfds) obs("-");
+  /* self-pipe configuration: the loop does not block the signals it watches.  A signal that arrives while the
+   * process sleeps in ppoll is acted upon when the call returns: keep the signals of the history blocked while
+   * they are raised, let the real ppoll below deliver them under the loop's mask (EINTR when a handler ran),
+   * or - descriptors ready - let them be delivered right after the call returned */
+  sigset_t orig;
+  if(fbmode) block_sigs(&orig);
   for(int i = 0; i < ninpoll; i++)
-    raise(inpoll[i]);           /* blocked by the loop: stays pending until the kernel looks */
+    raise(inpoll[i]);           /* blocked (by the loop, or here): stays pending until the kernel looks */
   ninpoll = 0;
   int force = in_run && ++run_polls >= MAX_RUN_POLLS;
   if(count > 0) {
     /* the kernel reports ready descriptors before it looks at signals */
+    if(fbmode) { int e_ = errno; sigprocmask(SIG_SETMASK, &orig, NULL); errno = e_; }
     EV(":%d ", count);
     if(force) { tickit_stop(T); EV("hstop "); }
     return count;
   }
   struct timespec zero = { 0, 0 };
   int r = __real_ppoll(NULL, 0, &zero, mask);
+  if(fbmode) { int e_ = errno; sigprocmask(SIG_SETMASK, &orig, NULL); errno = e_; }
   if(r < 0 && errno == EINTR) {
     EV(":eintr ");
     if(force) { tickit_stop(T); EV("hstop "); }
@@ -178,6 +231,16 @@ static int valid_sig(int s)
 {
   for(int i = 0; i < NSIGS; i++) if(SIGS[i] == s) return 1;
   return 0;
+}
+
+static void block_sigs(sigset_t *orig)
+{
+  sigset_t set;
+  sigemptyset(&set);
+  for(int i = 0; i < NSIGS; i++) sigaddset(&set, SIGS[i]);
+  int e_ = errno;
+  sigprocmask(SIG_BLOCK, &set, orig);
+  errno = e_;
 }
 
 static int cb(Tickit *t, TickitEventFlags flags, void *info, void *user);
@@ -298,11 +361,17 @@ static void sig_trailer(void)
   any = 0;
   for(int i = 0; i < NSIGS; i++) if(sigismember(&pend, SIGS[i])) { obs("%s%d", any ? "," : "", SIGS[i]); any = 1; }
   if(!any) obs("-");
+  if(fbmode) {
+    int n = 0;
+    if(pipe_rd >= 0 && ioctl(pipe_rd, FIONREAD, &n) == 0) obs(" q=%d", n);
+    else obs(" q=-");
+  }
 }
 
 static void engine_begin(void)
 {
   memset(TT, 0, sizeof TT); cur = 0; leaked = 0; nbeh = 0; ninpoll = 0; quiet = 0; in_run = 0; run_polls = 0;
+  fbmode = 0; canon_pipe = 0; npipes = 0; pipe_rd = -1;
   memset(W, 0, sizeof W);
   memset(PR, 0, sizeof PR);
   memset(ready_bits, 0, sizeof ready_bits);
@@ -327,9 +396,18 @@ static void __attribute__((noinline)) scrub_stack(void)
 
 static int build_current(void)
 {
+  if(fbmode) {
+    /* the default loop minus its optional signal members: tickit.c falls back to sigaction + self-pipe */
+    fbhooks = tickit_evloop_default;
+    fbhooks.signal = NULL;
+    fbhooks.cancel_signal = NULL;
+  }
+  canon_pipe = 1;
   T = tickit_build(&(struct TickitBuilder){
     .term_builder = { .termtype = "xterm", .output_func = outfn },
+    .evhooks = fbmode ? &fbhooks : NULL,
   });
+  canon_pipe = 0;
   if(!T) return 0;
   /* set the terminal up now (tickit_run would do it on first use), silently: one iteration with nothing to do */
   quiet = 1;
@@ -343,6 +421,7 @@ static void engine_op(int argc, char **argv)
   const char *op = argc ? argv[0] : "";
   if(strcmp(op, "new") == 0) {
     cur = 0;
+    for(int i = 1; i < argc; i++) if(strcmp(argv[i], "fb") == 0) fbmode = 1;
     if(!build_current()) { obs("build-failed"); return; }
     obs("ok ");
     sig_trailer();
@@ -350,6 +429,7 @@ static void engine_op(int argc, char **argv)
   }
   if((strcmp(op, "inst") == 0 || strcmp(op, "use") == 0) && argc == 2 &&
      argv[1][0] >= '0' && argv[1][0] < '0' + NINST && !argv[1][1]) {
+    if(fbmode && argv[1][0] != '0') { obs("bad-op"); return; }
     cur = argv[1][0] - '0';
     if(op[0] == 'i' && !T && !build_current()) { obs("build-failed"); return; }
     obs("ok ");
